@@ -82,6 +82,35 @@ func genC18(ctx *Ctx) {
 		}
 		ctx.Input(sx.L(sx.I(0), ops, sx.N(which), ups), nt)
 	}
+	// lookup, change, the same lookup again: whatever a lookup leaves behind in the collection (a remembered position) meets
+	// removals of earlier, of the found and of later entries, Clear and re-adding - with names equal up to letter case
+	{
+		var ups sx.List
+		for _, nm := range names {
+			ups = append(ups, sx.L(sx.S(nm), sx.S(strings.ToUpper(nm))))
+		}
+		op := func(code int, name string, arg int) sx.SX { return sx.L(sx.N(code), sx.S(name), sx.N(arg)) }
+		for which := 0; which < 2; which++ {
+			for _, grp := range [][]string{{"Name", "NAME", "name"}, {"é", "É", "É"}, {"a", "A", "a"}} {
+				for _, look := range []int{3, 4} {
+					changes := [][]sx.SX{
+						{op(6, "", 0)}, {op(7, "b", 0)}, {op(7, grp[2], 0)}, {op(6, "", 1)}, {op(6, "", 2)}, {op(7, "x1", 0)},
+						{op(8, "", 0), op(0, grp[1], 5), op(0, grp[0], 6)}, {op(8, "", 0)}, {op(6, "", 0), op(6, "", 0)}, {op(0, grp[2], 9), op(6, "", 1)},
+					}
+					for _, ch := range changes {
+						for _, q := range []string{grp[2], "x1", "b"} {
+							var ops sx.List
+							ops = append(ops, op(0, "b", 1), op(0, grp[0], 2), op(0, grp[1], 3), op(0, "x1", 4), op(look, q, 0))
+							ops = append(ops, ch...)
+							ops = append(ops, op(look, q, 0), op(look, q, 0), op(7, q, 0), op(look, q, 0))
+							ctx.Count("lookup-change-lookup")
+							ctx.Input(sx.L(sx.I(0), ops, sx.N(which), ups), true)
+						}
+					}
+				}
+			}
+		}
+	}
 	recase := func(s string) string {
 		if strings.HasPrefix(s, "\"") {
 			return s
@@ -310,6 +339,16 @@ func runC18Collection(ops sx.List, fn bool) (sx.SX, string) {
 		}()
 		// the list model of the property
 		panicked := sx.Text(res) == "(-999)"
+		if panicked && code != 2 && code != 6 && fail == "" {
+			fail = fmt.Sprintf("op %d %s(%q,%d) panicked", k, c18OpNames[code], name, arg)
+		}
+		if code == 4 && !panicked && fail == "" {
+			if i := find(name); i < 0 && len(sx.AsList(res)) != 0 {
+				fail = fmt.Sprintf("op %d: FindByName(%q) found %s, no entry has that name", k, name, sx.Text(res))
+			} else if i >= 0 && sx.Text(res) != sx.Text(sx.L(sx.L(sx.S(ref[i].name), sx.N(ref[i].val)))) {
+				fail = fmt.Sprintf("op %d: FindByName(%q) returned %s, the first entry with that name ignoring case is (%s %d)", k, name, sx.Text(res), ref[i].name, ref[i].val)
+			}
+		}
 		switch code {
 		case 0:
 			ref = append(ref, ent{name, arg})
